@@ -22,7 +22,13 @@ def make_universe(names=('a', 'b'), depth=3, extra=('c', 'c/a')):
             if d > 1:
                 rec(p, d - 1)
     rec([], depth)
-    return out + [e for e in extra if e not in out]
+    for e in extra:
+        parts = e.split('/')
+        for i in range(1, len(parts) + 1):
+            p = '/'.join(parts[:i])
+            if p not in out:
+                out.append(p)       # the universe is closed under ancestors (probe consistency checks rely on it)
+    return out
 
 
 UNIV_SMALL = make_universe()
